@@ -68,6 +68,10 @@ def gen(tier, rng):
                     v = v + Fr(1, 8)
                 pix.append([v.numerator, v.denominator])
             pts.append(pix)
+        none_pp = None
+        if kind == "probe" and npts >= 2 and rng.random() < 0.25:
+            # each point has its own None layout (a point may even give no coordinate at all)
+            none_pp = [none_groups if rng.random() < 0.4 else [g for g in groups if rng.random() < 0.45] for _ in range(npts)]
         form = rng.choice(["values_float_units", "values_float_km", "values_quantity", "values_quantity_km", "values_quantity_mixed", "objects", "objects"])
         all_none = rng.random() < 0.04
         bad = rng.choice([None] * 12 + ["short", "wrongclass", "badunit", "unitlen"])
@@ -81,13 +85,13 @@ def gen(tier, rng):
                 tabs = [t for t in tabs if t[0] not in mesh][:1]
                 none_groups = []
         unset = kind == "family" and rng.random() < 0.35      # a FITS WCS never evaluated before the cube is cropped
-        key = f"{kind}|{fam}|{shape}|{A}|{b}|{pts}|{none_groups}|{form}|{bad}|{keepdims}|{tabs}|{all_none}|{unset}|{mesh}"
+        key = f"{kind}|{fam}|{shape}|{A}|{b}|{pts}|{none_groups}|{form}|{bad}|{keepdims}|{tabs}|{all_none}|{unset}|{mesh}|{none_pp}"
         cases.append({"key": key, "stratum": kind if not bad else "malformed", "kind": kind, "fam": fam, "shape": shape, "A": A, "b": b,
                       "groups": groups, "none_groups": none_groups, "pts": pts, "form": form, "bad": bad, "all_none": all_none,
-                      "keepdims": keepdims, "tabs": tabs, "mesh": mesh, "unset": unset, "wcsname": rng.choice(["extra_coords", "combined_wcs"]) if kind == "ec" else "wcs",
+                      "keepdims": keepdims, "tabs": tabs, "mesh": mesh, "none_pp": none_pp, "unset": unset, "wcsname": rng.choice(["extra_coords", "combined_wcs"]) if kind == "ec" else "wcs",
                       "nontrivial": True,
                       "show": {"wcs": kind, "family": fam, "shape": shape, "A": A, "b": b, "pixel_positions_of_points": pts,
-                               "groups_left_None": "ALL" if all_none else none_groups, "form": form, "malformed": bad, "keepdims": keepdims, "extra_coords": tabs, "meshed_skycoord_on_axes": mesh, "wcs_never_evaluated_before": unset}})
+                               "groups_left_None": "ALL" if all_none else (none_pp if none_pp else none_groups), "form": form, "malformed": bad, "keepdims": keepdims, "extra_coords": tabs, "meshed_skycoord_on_axes": mesh, "wcs_never_evaluated_before": unset}})
     return cases
 
 
@@ -158,13 +162,18 @@ def run(case):
     if case.get("all_none"):
         none_w = set(range(ll.world_n_dim))
         none_groups = list(world_groups)
+    # the world axes left None in each point (the same for all points unless the case gives one layout per point)
+    none_w_pt = [set(none_w) for _ in pix_pts]
+    if case.get("none_pp") and not case.get("all_none"):
+        none_w_pt = [{w for wg, pg in zip(world_groups, pix_groups) if pg in [list(g) for g in layout] for w in wg}
+                     for layout in case["none_pp"]]
     units = list(ll.world_axis_units)
     form, bad = case["form"], case["bad"]
 
     def mkpoint(w, as_objects, pi=0):
         comps_ = []
         for i, v in enumerate(w):
-            if i in none_w:
+            if i in none_w_pt[pi]:
                 comps_.append(None)
             elif form == "values_float_units" and not as_objects:
                 comps_.append(float(v))
@@ -182,7 +191,7 @@ def run(case):
         if use_objects:
             hl = wcs_obj if wname != "extra_coords" else cube.extra_coords.wcs
             pts = []
-            for w in world_pts:
+            for pi_, w in enumerate(world_pts):
                 full = hl.low_level_wcs.pixel_to_world_values  # noqa
                 from astropy.wcs.wcsapi.high_level_api import values_to_high_level_objects
                 objs = values_to_high_level_objects(*[float(x) for x in w], low_level_wcs=ll)
@@ -194,7 +203,7 @@ def run(case):
                 point = []
                 for name, obj in zip(order, objs):
                     ws = [i for i, c in enumerate(comps_names) if c == name]
-                    point.append(None if all(i in none_w for i in ws) else obj)
+                    point.append(None if all(i in none_w_pt[pi_] for i in ws) else obj)
                 pts.append(point)
         else:
             pts = [mkpoint(w, False, pi) for pi, w in enumerate(world_pts)]
@@ -232,9 +241,9 @@ def run(case):
     dontcare = bad is not None and applies[bad] is None
     # ---- expected box, independently
     per_axis = {a: [] for a in range(nd)}
-    for p in pix_pts:
+    for pi_, p in enumerate(pix_pts):
         for g in world_groups:
-            if all(w in none_w for w in g):
+            if all(w in none_w_pt[pi_] for w in g):
                 continue
             for px in touched_pix(g):
                 per_axis[nd - 1 - px].append(int(np.floor(float(p[px]) + 0.5)))
@@ -292,7 +301,7 @@ def run(case):
                     why.append("result differs from cube[item]")
     return {"out": out, "oracle": {"ok": not why, "why": "; ".join(why[:3]), "finding": None},
             "world": None if case["kind"] != "probe" else
-            [[None if i in none_w else [Fr(float(x)).numerator, Fr(float(x)).denominator] for i, x in enumerate(w)] for w in world_pts]}
+            [[None if i in none_w_pt[pi_] else [Fr(float(x)).numerator, Fr(float(x)).denominator] for i, x in enumerate(w)] for pi_, w in enumerate(world_pts)]}
 
 
 def coq_case(case, res):
